@@ -50,6 +50,15 @@ type Env struct {
 	where   string
 	pats    *[]string       // trigger candidates of the innermost quantifier
 	qnames  map[string]bool // its bound variable names
+	rng     *rangeCtx       // the sync.Map being ranged over (at a Range call site)
+	// set while evaluating an opaque predicate's body: heap name -> real term
+	alias *map[string]Term
+}
+
+// rangeCtx: the map a Range closure is applied to. Inside the closure's own
+// verification the map is unknown: inRange is then an uninterpreted predicate.
+type rangeCtx struct {
+	dom, val Term
 }
 
 func (env *Env) fail(format string, a ...interface{}) {
@@ -57,6 +66,17 @@ func (env *Env) fail(format string, a ...interface{}) {
 }
 
 func (env *Env) heap(name string, sort Sort) Term {
+	t := env.heap0(name, sort)
+	if env.alias != nil {
+		// opaque-body evaluation: hand out an alias so that the reads can
+		// be identified in the resulting term (see opaque.go)
+		(*env.alias)[name] = t
+		return Term{aliasOf(name), sort}
+	}
+	return t
+}
+
+func (env *Env) heap0(name string, sort Sort) Term {
 	if env.inOld {
 		if !env.oldNil {
 			if t, ok := env.oldHeap[name]; ok {
@@ -89,6 +109,7 @@ func (ex *Exec) rootEnv(s *State, results []Val) *Env {
 			if pt, ok := fv.Type().Underlying().(*types.Pointer); ok {
 				if _, isStruct := pt.Elem().Underlying().(*types.Struct); !isStruct || modelKind(pt.Elem()) != "" {
 					env.vars[fv.Name()] = env.readLoc(pv)
+					env.vars["&"+fv.Name()] = SV{V: pv, T: fv.Type()}
 					continue
 				}
 			}
@@ -553,7 +574,7 @@ func (env *Env) readLoc(p PtrV) SV {
 	name := leafHeapName(p.Root, p.Path)
 	arr := env.heap(name, SArray(SRef, so))
 	v := Select(arr, p.Base)
-	if env.qdepth == 0 && (so == SRef || so == SSlice || so == SIface || so == SStr) {
+	if env.qdepth == 0 && env.alias == nil && (so == SRef || so == SSlice || so == SIface || so == SStr) {
 		env.ex.assumeWF(env.s, v, t)
 	}
 	if pt, ok := t.Underlying().(*types.Pointer); ok {
@@ -741,7 +762,7 @@ func (env *Env) convert(x SV, to types.Type) SV {
 	case t.Sort.IsBV() && so.IsBV():
 		return SV{V: Scalar{BVConv(t, so.Width(), x.T != nil && !isUnsigned(x.T))}, T: to}
 	case t.Sort == SSlice && so == SStr:
-		if env.qdepth > 0 {
+		if env.qdepth > 0 || env.alias != nil {
 			env.fail("string(bytes) under quantifier")
 		}
 		return SV{V: Scalar{env.ex.bytesToStr(env.s, t)}, T: to}
@@ -853,7 +874,7 @@ func (env *Env) evalBin(e *E) SV {
 	}
 	if xt.Sort == SStr && (op == token.EQL || op == token.NEQ) {
 		var eq Term
-		if env.qdepth > 0 {
+		if env.qdepth > 0 || env.alias != nil {
 			eq = Eq(xt, yt)
 		} else {
 			eq = env.ex.strEq(env.s, xt, yt)
@@ -905,6 +926,26 @@ func (env *Env) evalCall(e *E) SV {
 				env.fail("ret: no call result here")
 			}
 			return *env.s.CurRet
+		case "retn":
+			// i-th component of a multi-value call result
+			if env.s.CurRet == nil {
+				env.fail("retn: no call result here")
+			}
+			tv, ok := env.s.CurRet.V.(TupleV)
+			i := int(env.eval(args[0]).U.Int64())
+			tt, ok2 := env.s.CurRet.T.(*types.Tuple)
+			if !ok || !ok2 || i >= len(tv) {
+				env.fail("retn(%d): result is not a tuple of that size", i)
+			}
+			return SV{V: tv[i], T: tt.At(i).Type()}
+		case "inRange":
+			// (k, v) is an entry of the map a Range closure runs over
+			k := env.coerce(env.eval(args[0]), SIface)
+			v := env.coerce(env.eval(args[1]), SIface)
+			if env.rng != nil {
+				return SV{V: Scalar{And(Select(env.rng.dom, k), Eq(Select(env.rng.val, k), v))}, T: boolT}
+			}
+			return SV{V: Scalar{Term{fmt.Sprintf("(inrange %s %s)", k.S, v.S), SBool}}, T: boolT}
 		case "soff":
 			// absolute offset of a slice in its backing store
 			return SV{V: Scalar{SlOff(env.term(env.eval(args[0])))}, T: types.Typ[types.Int]}
@@ -998,6 +1039,13 @@ func (env *Env) evalCall(e *E) SV {
 		case "strBytesEq":
 			s, b := env.term(env.eval(args[0])), env.term(env.eval(args[1]))
 			return SV{V: Scalar{env.strBytesEq(s, b)}, T: boolT}
+		case "emptyset":
+			ty := env.eval(args[0])
+			if ty.TypeV == nil {
+				env.fail("emptyset: argument must be a type")
+			}
+			ks := sortOf(ty.TypeV)
+			return SV{V: MathMap{Dom: Term{fmt.Sprintf("((as const (Array %s Bool)) false)", ks), SArray(ks, SBool)}}}
 		case "add":
 			m := env.eval(args[0]).V.(MathMap)
 			ks, _ := splitArraySort(m.Dom.Sort)
@@ -1096,6 +1144,9 @@ func (env *Env) callSpec(sf *SpecFn, args []*E) SV {
 		if sp := env.ex.g.pkgs[repoPrefix+"/"+sf.Pkg]; sp != nil {
 			sub.pkg = sp.Pkg
 		}
+	}
+	if sf.Opaque {
+		return env.callOpaque(sf, sub, vars)
 	}
 	r := sub.eval(sf.Body)
 	if sf.Ret != nil {
